@@ -1,31 +1,886 @@
+// c12: util/fixedtree -- the fixed (heap-indexed) Merkle tree commits to every node, proofs are complete and sound.
+//
+// Runs the real Writer -> Tree -> ExtractProofMaterial -> Proof.IsValid/Prove on generated trees, every
+// key's proof and single-node single-field mutations; evaluates the property's statement directly on the
+// observed results (oracle) and writes the same inputs + observed outputs as Coq cases for the model
+// (coq/C12/Model.v).  The hash function is abstract in the model: each case carries the table of
+// (input, output) pairs of the real hash function the model is allowed to apply.
 package main
 
 import (
+	"bytes"
+	"encoding/hex"
 	"fmt"
+	"math/bits"
+	"sort"
+	"strings"
 
 	"github.com/spikeekips/mitum/util/fixedtree"
 	"github.com/spikeekips/mitum/util/hint"
 	"github.com/spikeekips/mitum/util/valuehash"
+	"verifharness/vh"
 )
 
-func main() {
-	ht := hint.MustNewHint("fixedtree-v0.0.1")
-	w, _ := fixedtree.NewWriter(ht, 7)
-	for i := 0; i < 7; i++ {
-		_ = w.Add(uint64(i), fixedtree.NewBaseNode(fmt.Sprintf("k%d", i)))
+var treeHint = hint.MustNewHint("fixedtree-v0.0.1")
+
+// ---------------------------------------------------------------- plain nodes
+
+type rnode struct {
+	Key   []byte `json:"key"`
+	Hash  []byte `json:"hash"`
+	Empty bool   `json:"empty"`
+}
+
+func fromNode(n fixedtree.Node) rnode {
+	if n.IsEmpty() {
+		return rnode{Empty: true}
+	}
+	var h []byte
+	if n.Hash() != nil {
+		h = append([]byte{}, n.Hash().Bytes()...)
+	}
+	return rnode{Key: []byte(n.Key()), Hash: h}
+}
+
+func fromNodes(ns []fixedtree.Node) []rnode {
+	out := make([]rnode, len(ns))
+	for i := range ns {
+		out[i] = fromNode(ns[i])
+	}
+	return out
+}
+
+func (r rnode) node() fixedtree.Node {
+	if r.Empty {
+		return fixedtree.EmptyBaseNode()
+	}
+	return fixedtree.NewBaseNode(string(r.Key)).SetHash(valuehash.NewBytes(append([]byte{}, r.Hash...)))
+}
+
+func toNodes(rs []rnode) []fixedtree.Node {
+	out := make([]fixedtree.Node, len(rs))
+	for i := range rs {
+		out[i] = rs[i].node()
+	}
+	return out
+}
+
+func (r rnode) hash() []byte {
+	if r.Empty {
+		return nil
+	}
+	return r.Hash
+}
+
+func (r rnode) coq() string {
+	return "(" + vh.Hex(r.Key) + ", " + vh.Hex(r.Hash) + ", " + vh.Bool(r.Empty) + ")"
+}
+
+func coqNodes(rs []rnode) string {
+	ss := make([]string, len(rs))
+	for i := range rs {
+		ss[i] = rs[i].coq()
+	}
+	return vh.List(ss)
+}
+
+func coqOptNodes(rs []rnode, ok bool) string {
+	if !ok {
+		return "None"
+	}
+	return vh.Some(coqNodes(rs))
+}
+
+func cloneNodes(rs []rnode) []rnode { return append([]rnode{}, rs...) }
+
+func (r rnode) String() string {
+	if r.Empty {
+		return "<empty>"
+	}
+	return fmt.Sprintf("%q:%s", r.Key, hex.EncodeToString(r.Hash))
+}
+
+// ---------------------------------------------------------------- recorded hash function
+
+type htab struct {
+	m     map[string][]byte
+	order []string
+}
+
+func newTab() *htab { return &htab{m: map[string][]byte{}} }
+
+// the hash function of the tree, as the repository provides it
+func realH(in []byte) []byte { return valuehash.NewSHA256(in).Bytes() }
+
+func (t *htab) H(in []byte) []byte {
+	k := string(in)
+	if o, ok := t.m[k]; ok {
+		return o
+	}
+	o := realH(in)
+	t.m[k] = o
+	t.order = append(t.order, k)
+	return o
+}
+
+func (t *htab) coq() string {
+	ss := make([]string, len(t.order))
+	for i, k := range t.order {
+		ss[i] = "(" + vh.Hex([]byte(k)) + ", " + vh.Hex(t.m[k]) + ")"
+	}
+	return vh.List(ss)
+}
+
+// all outputs seen in this run, to report an actual collision of the hash function if one ever shows up
+var seenOut = map[string]string{}
+
+func noteCollisions(t *htab, res *vh.Result) {
+	for _, k := range t.order {
+		o := string(t.m[k])
+		if p, ok := seenOut[o]; ok && p != k {
+			res.Fail("hash-collision", "two different inputs of the hash function with the same output", map[string]string{"a": hex.EncodeToString([]byte(p)), "b": hex.EncodeToString([]byte(k))})
+		}
+		seenOut[o] = k
+	}
+}
+
+// ---------------------------------------------------------------- reference (mirror of the model; used to fill the table and as independent recomputation)
+
+func concat(a, b, c []byte) []byte {
+	o := make([]byte, 0, len(a)+len(b)+len(c))
+	o = append(o, a...)
+	o = append(o, b...)
+	return append(o, c...)
+}
+
+func childHash(t []rnode, c int) []byte {
+	if c < len(t) {
+		return t[c].hash()
+	}
+	return nil
+}
+
+// every node's hash equals H(key ++ left hash ++ right hash), keys non-empty, nodes not empty
+func refValid(t []rnode, tab *htab) bool {
+	ok := true
+	for i, n := range t {
+		if len(n.Key) == 0 {
+			ok = false
+			continue
+		}
+		var lh, rh []byte
+		if 2*i+1 < len(t) {
+			lh, rh = childHash(t, 2*i+1), childHash(t, 2*i+2)
+		}
+		h := tab.H(concat(n.Key, lh, rh))
+		if n.Empty || len(n.Hash) < 1 || len(n.Hash) > 100 || !bytes.Equal(n.hash(), h) {
+			ok = false
+		}
+	}
+	return ok
+}
+
+func refGen(keys [][]byte, tab *htab) ([]rnode, bool) {
+	if len(keys) == 0 {
+		return nil, false
+	}
+	t := make([]rnode, len(keys))
+	for i := len(keys) - 1; i >= 0; i-- {
+		if len(keys[i]) == 0 {
+			return nil, false
+		}
+		var lh, rh []byte
+		if 2*i+1 < len(t) {
+			lh, rh = childHash(t, 2*i+1), childHash(t, 2*i+2)
+		}
+		t[i] = rnode{Key: keys[i], Hash: tab.H(concat(keys[i], lh, rh))}
+	}
+	return t, true
+}
+
+// alignment of Proof.filterNodes: (left hash, right hash, rest)
+func refAlign(p []rnode, key []byte) (lh, rh []byte, rest []rnode, found bool) {
+	i := -1
+	for j := range p {
+		if bytes.Equal(p[j].Key, key) {
+			i = j
+			break
+		}
+	}
+	if i < 0 {
+		return nil, nil, nil, false
+	}
+	switch {
+	case i%2 == 0:
+		if i > 1 {
+			lh, rh = p[i-2].hash(), p[i-1].hash()
+		}
+		rest = p[i:]
+	case i+1 == len(p):
+		if i > 1 {
+			lh, rh = p[i-2].hash(), p[i-1].hash()
+		}
+		rest = p[i : i+1]
+	default:
+		if i > 1 {
+			lh, rh = p[i-3].hash(), p[i-2].hash()
+		}
+		rest = p[i-1:]
+	}
+	return lh, rh, rest, true
+}
+
+// records every hash application Prove may perform on (p, key), all levels, all candidates
+func refProveQueries(p []rnode, key []byte, tab *htab) {
+	lh, rh, rest, found := refAlign(p, key)
+	if !found {
+		return
+	}
+	lvl0 := true
+	for len(rest) > 0 {
+		cs := rest[:1]
+		if len(rest) > 2 {
+			cs = rest[:2]
+		}
+		for _, c := range cs {
+			if c.Empty || len(c.Key) == 0 || (lvl0 && !bytes.Equal(c.Key, key)) {
+				continue
+			}
+			tab.H(concat(c.Key, lh, rh))
+		}
+		if len(rest) <= 2 {
+			break
+		}
+		lh, rh = rest[0].hash(), rest[1].hash()
+		rest = rest[2:]
+		lvl0 = false
+	}
+}
+
+// ---------------------------------------------------------------- real code wrappers
+
+func realTreeValid(t []rnode) bool {
+	tr, err := fixedtree.NewTree(treeHint, toNodes(t))
+	if err != nil {
+		return false
+	}
+	return tr.IsValid(nil) == nil
+}
+
+func realGen(keys [][]byte) ([]rnode, bool) {
+	w, err := fixedtree.NewWriter(treeHint, uint64(len(keys)))
+	if err != nil {
+		return nil, false
+	}
+	for i := range keys {
+		if err := w.Add(uint64(i), fixedtree.NewBaseNode(string(keys[i]))); err != nil {
+			return nil, false
+		}
 	}
 	tr, err := w.Tree()
-	fmt.Println(err, tr.IsValid(nil))
-	p, err := tr.Proof("k3")
-	fmt.Println(err, p.IsValid(nil), p.Prove("k3"))
-	ns := p.Nodes()
-	for i, n := range ns {
-		fmt.Println(i, n.Key(), n.Hash(), n.IsEmpty())
+	if err != nil {
+		return nil, false
 	}
-	// sibling key change
-	ms := make([]fixedtree.Node, len(ns))
-	copy(ms, ns)
-	ms[3] = fixedtree.NewBaseNode("FORGED").SetHash(valuehash.NewBytes(ns[3].Hash().Bytes()))
-	q := fixedtree.NewProof(ms)
-	fmt.Println("sibling key changed: IsValid", q.IsValid(nil), "Prove(k3)", q.Prove("k3"), "Prove(FORGED)", q.Prove("FORGED"))
+	return fromNodes(tr.Nodes()), true
+}
+
+func realExtract(t []rnode, key []byte) ([]rnode, bool) {
+	ex, err := fixedtree.ExtractProofMaterial(toNodes(t), string(key))
+	if err != nil {
+		return nil, false
+	}
+	return fromNodes(ex), true
+}
+
+func realProve(p []rnode, key []byte) bool {
+	return fixedtree.NewProof(toNodes(p)).Prove(string(key)) == nil
+}
+
+func realProofValid(p []rnode) bool {
+	return fixedtree.NewProof(toNodes(p)).IsValid(nil) == nil
+}
+
+// ---------------------------------------------------------------- key generators
+
+func hashLikeKey(r *vh.Rand) []byte { return []byte(valuehash.NewBytes(r.Bytes(32)).String()) }
+
+func genKeys(r *vh.Rand, n, style int) [][]byte {
+	keys := make([][]byte, n)
+	for i := range keys {
+		switch style {
+		case 0: // like the keys mitum uses (hash strings)
+			keys[i] = hashLikeKey(r)
+		case 1: // short
+			keys[i] = []byte(fmt.Sprintf("k%d", i))
+		case 2: // arbitrary bytes, arbitrary length
+			keys[i] = r.Bytes(r.Range(1, 70))
+		default: // common prefixes, one is a prefix of another
+			keys[i] = []byte(strings.Repeat("a", 1+i%37) + fmt.Sprintf("%d", i/37))
+		}
+	}
+	return keys
+}
+
+// keys built from the keys and hashes of an existing tree: key ++ hash ++ hash looks like the hash input of an inner node
+func adversarialKeys(r *vh.Rand, base []rnode) [][]byte {
+	n := len(base)
+	keys := make([][]byte, n)
+	for i := range keys {
+		j := r.Intn(n)
+		switch r.Intn(5) {
+		case 0:
+			keys[i] = concat(base[j].Key, childHash(base, 2*j+1), childHash(base, 2*j+2))
+		case 1:
+			keys[i] = concat(base[j].Key, base[r.Intn(n)].Hash, nil)
+		case 2:
+			keys[i] = concat(base[j].Key, base[r.Intn(n)].Key, base[r.Intn(n)].Hash)
+		case 3:
+			keys[i] = append([]byte{}, base[j].Hash...)
+		default:
+			keys[i] = append([]byte{}, base[i].Key...)
+		}
+	}
+	// keep them pairwise different
+	seen := map[string]bool{}
+	for i := range keys {
+		for seen[string(keys[i])] {
+			keys[i] = append(keys[i], byte('0'+r.Intn(10)))
+		}
+		seen[string(keys[i])] = true
+	}
+	return keys
+}
+
+func uniqueKeys(keys [][]byte) bool {
+	seen := map[string]bool{}
+	for _, k := range keys {
+		if seen[string(k)] {
+			return false
+		}
+		seen[string(k)] = true
+	}
+	return true
+}
+
+// ---------------------------------------------------------------- mutations
+
+type mut struct {
+	Pos  int    `json:"pos"`
+	Kind string `json:"kind"`
+	Node rnode  `json:"node"`
+}
+
+func flipByte(b []byte, r *vh.Rand) []byte {
+	o := append([]byte{}, b...)
+	if len(o) == 0 {
+		return []byte{1}
+	}
+	o[r.Intn(len(o))] ^= byte(1 << uint(r.Intn(8)))
+	return o
+}
+
+// single-node single-field changes of node at pos; pool = other nodes to borrow keys / hashes from
+func mutationsOf(n rnode, pos int, pool []rnode, r *vh.Rand) []mut {
+	var ms []mut
+	if n.Empty {
+		// an empty node has no key or hash to change
+		return ms
+	}
+	ms = append(ms, mut{pos, "hash-flip", rnode{Key: n.Key, Hash: flipByte(n.Hash, r)}})
+	ms = append(ms, mut{pos, "key-flip", rnode{Key: flipByte(n.Key, r), Hash: n.Hash}})
+	ms = append(ms, mut{pos, "key-append", rnode{Key: append(append([]byte{}, n.Key...), byte(r.Intn(256))), Hash: n.Hash}})
+	if len(pool) > 0 {
+		o := pool[r.Intn(len(pool))]
+		if !o.Empty && !bytes.Equal(o.Hash, n.Hash) {
+			ms = append(ms, mut{pos, "hash-other", rnode{Key: n.Key, Hash: o.Hash}})
+		}
+		o = pool[r.Intn(len(pool))]
+		if !o.Empty && !bytes.Equal(o.Key, n.Key) {
+			ms = append(ms, mut{pos, "key-other", rnode{Key: o.Key, Hash: n.Hash}})
+		}
+	}
+	ms = append(ms, mut{pos, "hash-truncate", rnode{Key: n.Key, Hash: n.Hash[:len(n.Hash)-1]}})
+	return ms
+}
+
+func replaced(rs []rnode, pos int, n rnode) []rnode {
+	o := cloneNodes(rs)
+	o[pos] = n
+	return o
+}
+
+// ---------------------------------------------------------------- the run
+
+type run struct {
+	o     *vh.Opts
+	r     *vh.Rand
+	res   *vh.Result
+	cases *vh.Cases
+}
+
+type treeReplay struct {
+	What string   `json:"what"`
+	Keys []string `json:"keys_hex"`
+	Key  string   `json:"key_hex,omitempty"`
+	Mut  *mut     `json:"mutation,omitempty"`
+	Pf   []rnode  `json:"proof,omitempty"`
+}
+
+func hexKeys(keys [][]byte) []string {
+	o := make([]string, len(keys))
+	for i := range keys {
+		o[i] = hex.EncodeToString(keys[i])
+	}
+	return o
+}
+
+func (x *run) arith() {
+	res := x.res
+	lim := uint64(1) << uint(x.o.Pick(22, 26))
+	bad := 0
+	for i := uint64(0); i < lim && bad < 5; i++ {
+		h := fixedtree.VerifIndexHeight(i)
+		if want := uint64(bits.Len64(i+1) - 1); h != want {
+			bad++
+			res.Fail("index-arith", fmt.Sprintf("indexHeight(%d)=%d want %d", i, h, want), map[string]uint64{"i": i})
+		}
+		for _, size := range []uint64{2*i + 1, 2*i + 2, 2*i + 3} {
+			c, ok := fixedtree.VerifChildren(int(size), i)
+			wantok := 2*i+1 < size
+			if ok != wantok || (ok && (c[0] != 2*i+1 || c[1] != 2*i+2)) {
+				bad++
+				res.Fail("index-arith", fmt.Sprintf("children(%d,%d)=%v,%v", size, i, c, ok), map[string]uint64{"i": i, "size": size})
+			}
+		}
+		p, ok := fixedtree.VerifParent(i)
+		if ok != (i > 0) || (ok && p != (i-1)/2) {
+			bad++
+			res.Fail("index-arith", fmt.Sprintf("parent(%d)=%d,%v", i, p, ok), map[string]uint64{"i": i})
+		}
+		res.Evaluations += 5
+	}
+	res.Distribution["arith_sweep_upto"] = int(lim)
+	// model cases
+	var is []uint64
+	for i := uint64(0); i < 48; i++ {
+		is = append(is, i)
+	}
+	for k := uint(6); k <= 32; k++ {
+		for d := uint64(0); d < 4; d++ {
+			is = append(is, (uint64(1)<<k)-2+d)
+		}
+	}
+	for j := 0; j < 60; j++ {
+		is = append(is, x.r.U64()>>uint(32+x.r.Intn(30)))
+	}
+	for _, i := range is {
+		var size uint64
+		switch x.r.Intn(4) {
+		case 0:
+			size = 2*i + 1
+		case 1:
+			size = 2*i + 2
+		case 2:
+			size = 2*i + 3
+		default:
+			size = i + 1 + uint64(x.r.Intn(int(i+2)))
+		}
+		h := fixedtree.VerifIndexHeight(i)
+		c, cok := fixedtree.VerifChildren(int(size), i)
+		p, pok := fixedtree.VerifParent(i)
+		cs, ps := "None", "None"
+		if cok {
+			cs = vh.Some(vh.Tuple(vh.N(c[0]), vh.N(c[1])))
+		}
+		if pok {
+			ps = vh.Some(vh.N(p))
+		}
+		x.cases.Add(fmt.Sprintf("CArith %s %s %s %s %s", vh.N(i), vh.N(size), vh.N(h), cs, ps),
+			map[string]any{"kind": "arith", "i": i, "size": size, "height": h, "children": c, "children_ok": cok, "parent": p, "parent_ok": pok})
+		x.res.Dist("model:arith")
+	}
+}
+
+// positions of the extracted proof of the node at tree index a that lie on the chain target -> root
+func chainPositions(a int) map[int]bool {
+	on := map[int]bool{}
+	// pairs: pair m (m>=1) holds the children of the (m)th ancestor ... the node itself sits in pair 1
+	l := a
+	m := 1
+	for l > 0 {
+		pos := 2 * m
+		if l%2 == 0 { // right child
+			pos++
+		}
+		on[pos] = true
+		l = (l - 1) / 2
+		m++
+	}
+	on[2*m] = true // the root, last
+	return on
+}
+
+func (x *run) tree(keys [][]byte, style string, exhaustive bool, modelShare int) {
+	res, r := x.res, x.r
+	n := len(keys)
+	uniq := uniqueKeys(keys)
+	res.Dist("tree:" + style)
+	switch {
+	case n <= 8:
+		res.Dist("size:1-8")
+	case n <= 64:
+		res.Dist("size:9-64")
+	case n <= 512:
+		res.Dist("size:65-512")
+	default:
+		res.Dist("size:513-2000")
+	}
+	rep := func(what string) treeReplay { return treeReplay{What: what, Keys: hexKeys(keys)} }
+
+	// ---- generate
+	t, ok := realGen(keys)
+	gtab := newTab()
+	rt, rok := refGen(keys, gtab)
+	res.Count(fmt.Sprintf("gen/%s/%d/%x", style, n, keys[0]), n > 1)
+	x.cases.Add(fmt.Sprintf("CGen %s %s %s", gtab.coq(), hexList(keys), coqOptNodes(t, ok)),
+		map[string]any{"kind": "gen", "style": style, "size": n, "keys_hex": hexKeys(keys)})
+	res.Dist("model:gen")
+	if !ok {
+		res.Fail("generate-failed", "Writer.Tree() failed for non-empty keys", rep("generate"))
+		return
+	}
+	if !rok || len(rt) != len(t) {
+		res.Fail("generate-differs", "generated tree differs from recomputation", rep("generate"))
+		return
+	}
+	for i := range t {
+		if !bytes.Equal(t[i].Key, keys[i]) || !bytes.Equal(t[i].Hash, rt[i].Hash) {
+			res.Fail("generate-differs", fmt.Sprintf("node %d of the generated tree is not H(key ++ children hashes)", i), rep("generate"))
+			return
+		}
+	}
+	noteCollisions(gtab, res)
+
+	// ---- validity of the generated tree, then of every mutated tree
+	if !realTreeValid(t) {
+		res.Fail("generated-invalid", "generated tree fails IsValid", rep("isvalid"))
+	}
+	ttab := newTab()
+	refValid(t, ttab)
+	var tmuts []string
+	var allm []mut
+	idxs := r.Perm(n)
+	if !exhaustive && len(idxs) > 6 {
+		idxs = idxs[:6]
+	}
+	for _, i := range idxs {
+		allm = append(allm, mutationsOf(t[i], i, t, r)...)
+		allm = append(allm, mut{i, "empty", rnode{Empty: true}})
+	}
+	for k, m := range allm {
+		t2 := replaced(t, m.Pos, m.Node)
+		v := realTreeValid(t2)
+		res.Count(fmt.Sprintf("tmut/%d/%d/%s/%x", n, m.Pos, m.Kind, keys[0]), true)
+		res.Dist("tree-mutation:" + m.Kind)
+		if v {
+			mm := m
+			rp := rep("tree-mutation")
+			rp.Mut = &mm
+			res.Fail("tree-mutation-undetected", fmt.Sprintf("tree of %d nodes still valid after %s of node %d", n, m.Kind, m.Pos), rp)
+		}
+		// the root changes whenever a node's key changes
+		if strings.HasPrefix(m.Kind, "key") && (exhaustive || k%3 == 0) {
+			k2 := append([][]byte{}, keys...)
+			k2[m.Pos] = m.Node.Key
+			if t3, ok3 := realGen(k2); ok3 && bytes.Equal(t3[0].Hash, t[0].Hash) {
+				mm := m
+				rp := rep("root-after-key-change")
+				rp.Mut = &mm
+				res.Fail("root-unchanged-on-key-change", fmt.Sprintf("root unchanged after key of node %d changed", m.Pos), rp)
+			}
+			res.Evaluations++
+		}
+		if k%modelShare == 0 || n <= 8 {
+			refValid(t2, ttab)
+			tmuts = append(tmuts, vh.Tuple(vh.N(uint64(m.Pos)), m.Node.coq(), vh.Bool(v)))
+		}
+	}
+	x.cases.Add(fmt.Sprintf("CTree %s %s %s %s", ttab.coq(), coqNodes(t), vh.Bool(true && realTreeValid(t)), vh.List(tmuts)),
+		map[string]any{"kind": "tree", "style": style, "size": n, "keys_hex": hexKeys(keys), "mutations": len(tmuts)})
+	res.Dist("model:tree")
+	noteCollisions(ttab, res)
+
+	// ---- proofs
+	absent := []byte("ABSENT-" + fmt.Sprint(r.Intn(1000)))
+	kidx := r.Perm(n)
+	if !exhaustive && len(kidx) > 8 {
+		kidx = kidx[:8]
+		// always include the last node, the first leaf, the last inner node
+		kidx = append(kidx, n-1, n/2, (n-1)/2, 0)
+	}
+	inTree := map[string]bool{}
+	for _, k := range keys {
+		inTree[string(k)] = true
+	}
+	first := map[string]int{}
+	for i := n - 1; i >= 0; i-- {
+		first[string(keys[i])] = i
+	}
+	for kk, a := range kidx {
+		key := keys[a]
+		p, pok := realExtract(t, key)
+		toModel := n <= 8 || kk%modelShare == 0
+		if toModel {
+			x.cases.Add(fmt.Sprintf("CExtract %s %s %s", coqNodes(t), vh.Hex(key), coqOptNodes(p, pok)),
+				map[string]any{"kind": "extract", "size": n, "index": a, "key_hex": hex.EncodeToString(key), "keys_hex": hexKeys(keys)})
+			res.Dist("model:extract")
+		}
+		res.Count(fmt.Sprintf("proof/%d/%d/%x", n, a, keys[0]), n > 1)
+		rp := rep("proof")
+		rp.Key = hex.EncodeToString(key)
+		if !pok {
+			res.Fail("proof-incomplete", fmt.Sprintf("no proof material for key of node %d of a valid tree of %d nodes", a, n), rp)
+			continue
+		}
+		pv := realProofValid(p)
+		pr := realProve(p, key)
+		if uniq && (!pv || !pr) {
+			res.Fail("proof-incomplete", fmt.Sprintf("extracted proof of node %d (tree of %d nodes) does not verify: IsValid=%v Prove=%v", a, n, pv, pr), rp)
+		}
+		if !bytes.Equal(p[len(p)-1].Hash, t[0].Hash) {
+			res.Fail("proof-incomplete", "extracted proof does not end in the root", rp)
+		}
+		ptab := newTab()
+		var proves, pmuts []string
+		addProve := func(k []byte) {
+			v := realProve(p, k)
+			refProveQueries(p, k, ptab)
+			proves = append(proves, vh.Tuple(vh.Hex(k), vh.Bool(v)))
+			res.Evaluations++
+			if v && !inTree[string(k)] {
+				rp2 := rp
+				rp2.Pf = p
+				rp2.Key = hex.EncodeToString(k)
+				res.Fail("proof-forged-membership", "Prove accepts a key that is not in the tree", rp2)
+			}
+		}
+		addProve(key)
+		addProve(absent)
+		if toModel {
+			for _, q := range p {
+				if !q.Empty && !bytes.Equal(q.Key, key) && r.Chance(1, 2) {
+					addProve(q.Key)
+				}
+			}
+		}
+		// single-field mutations of the proof; forged membership through each mutated key
+		if !uniq || first[string(key)] != a {
+			continue
+		}
+		chain := chainPositions(a)
+		var pm []mut
+		for j := range p {
+			pm = append(pm, mutationsOf(p[j], j, t, r)...)
+			if !p[j].Empty {
+				pm = append(pm, mut{j, "key-forged", rnode{Key: []byte("FORGED"), Hash: p[j].Hash}})
+				pm = append(pm, mut{j, "empty", rnode{Empty: true}})
+			}
+		}
+		sel := map[int]bool{}
+		if toModel {
+			for c := 0; c < 14 && c < len(pm); c++ {
+				sel[r.Intn(len(pm))] = true
+			}
+		}
+		for mi, m := range pm {
+			p2 := replaced(p, m.Pos, m.Node)
+			pk := key
+			if m.Kind == "key-forged" {
+				pk = []byte("FORGED")
+			}
+			v := realProve(p2, pk)
+			res.Count(fmt.Sprintf("pmut/%d/%d/%d/%s/%x", n, a, m.Pos, m.Kind, keys[0]), true)
+			res.Dist("proof-mutation:" + m.Kind)
+			if sel[mi] || n <= 4 {
+				refProveQueries(p2, pk, ptab)
+				pmuts = append(pmuts, vh.Tuple(vh.N(uint64(m.Pos)), m.Node.coq(), vh.Hex(pk), vh.Bool(v)))
+			}
+			if !v {
+				continue
+			}
+			mm := m
+			rp2 := rp
+			rp2.Pf = p
+			rp2.Mut = &mm
+			switch {
+			case m.Kind == "key-forged":
+				res.Fail("proof-forged-membership", fmt.Sprintf("after renaming position %d of the proof to a key that is not in the tree, Prove of that key succeeds", m.Pos), rp2)
+			case strings.HasPrefix(m.Kind, "key") && !chain[m.Pos]:
+				// key of a node that is not on the path target -> root: only its hash enters the chain
+				res.Fail("proof-sibling-key", fmt.Sprintf("Prove still succeeds after the key of the off-path node at position %d of the proof was changed", m.Pos), rp2)
+			default:
+				res.Fail("proof-mutation-undetected", fmt.Sprintf("Prove still succeeds after %s at position %d (on path: %v) of the proof of node %d, tree of %d nodes", m.Kind, m.Pos, chain[m.Pos], a, n), rp2)
+			}
+		}
+		if toModel {
+			x.cases.Add(fmt.Sprintf("CProof %s %s %s %s %s", ptab.coq(), coqNodes(p), vh.Bool(pv), vh.List(proves), vh.List(pmuts)),
+				map[string]any{"kind": "proof", "size": n, "index": a, "key_hex": hex.EncodeToString(key), "keys_hex": hexKeys(keys), "mutations": len(pmuts)})
+			res.Dist("model:proof")
+			noteCollisions(ptab, res)
+		}
+	}
+}
+
+func hexList(keys [][]byte) string {
+	ss := make([]string, len(keys))
+	for i := range keys {
+		ss[i] = vh.Hex(keys[i])
+	}
+	return vh.List(ss)
+}
+
+// hand-made proofs and trees: shapes Prove / IsValid must handle that extraction never produces
+func (x *run) corpus() {
+	r := x.r
+	keys := genKeys(r, 7, 1)
+	t, _ := realGen(keys)
+	p, _ := realExtract(t, keys[3])
+	// the witness of the former defect: sibling renamed to a key that is not in the tree
+	w := replaced(p, 3, rnode{Key: []byte("FORGED"), Hash: p[3].Hash})
+	x.proofCase(w, [][]byte{[]byte("FORGED"), keys[3], keys[4]}, keys, "corpus:forged-sibling")
+	// even lengths, key at position 0/1, key at the last position, truncated proofs, duplicated nodes
+	var shapes [][]rnode
+	shapes = append(shapes, p[:len(p)-1], p[1:], p[2:], p[:3], p[:1], p[len(p)-1:], append(cloneNodes(p), p[2]), append(cloneNodes(p[2:4]), p...))
+	shapes = append(shapes, []rnode{}, []rnode{{Empty: true}}, []rnode{{Empty: true}, {Empty: true}, {Empty: true}})
+	sw := cloneNodes(p)
+	sw[2], sw[3] = sw[3], sw[2]
+	shapes = append(shapes, sw)
+	sw2 := cloneNodes(p)
+	sw2[4], sw2[5] = sw2[5], sw2[4]
+	shapes = append(shapes, sw2)
+	for _, s := range shapes {
+		ks := [][]byte{keys[3], keys[1], keys[0], keys[4], []byte("nope")}
+		x.proofCase(s, ks, keys, "corpus:shape")
+	}
+	// a node with an empty key among the candidates (nodeHash error aborts Prove)
+	ek := replaced(p, 4, rnode{Key: []byte{}, Hash: p[4].Hash})
+	x.proofCase(ek, [][]byte{keys[3]}, keys, "corpus:empty-key")
+	// trees: empty key, empty node, zero-length hash, too long hash
+	for _, m := range []mut{{2, "", rnode{Key: []byte{}, Hash: t[2].Hash}}, {6, "", rnode{Empty: true}}, {5, "", rnode{Key: t[5].Key, Hash: []byte{}}},
+		{5, "", rnode{Key: t[5].Key, Hash: bytes.Repeat([]byte{7}, 101)}}, {5, "", rnode{Key: t[5].Key, Hash: bytes.Repeat([]byte{7}, 100)}}} {
+		t2 := replaced(t, m.Pos, m.Node)
+		tab := newTab()
+		refValid(t2, tab)
+		v := realTreeValid(t2)
+		if v {
+			x.res.Fail("tree-mutation-undetected", "hand-made invalid tree is valid", treeReplay{What: "corpus-tree", Keys: hexKeys(keys), Mut: &m})
+		}
+		x.cases.Add(fmt.Sprintf("CTree %s %s %s []", tab.coq(), coqNodes(t2), vh.Bool(v)), map[string]any{"kind": "tree", "style": "corpus", "nodes": t2})
+		x.res.Dist("model:tree")
+		x.res.Evaluations++
+	}
+	// Writer with an empty key
+	for _, ks := range [][][]byte{{[]byte("a"), {}, []byte("c")}, {{}}} {
+		g, ok := realGen(ks)
+		tab := newTab()
+		refGen(ks, tab)
+		x.cases.Add(fmt.Sprintf("CGen %s %s %s", tab.coq(), hexList(ks), coqOptNodes(g, ok)), map[string]any{"kind": "gen", "style": "corpus-empty-key"})
+		x.res.Dist("model:gen")
+		x.res.Evaluations++
+	}
+}
+
+func (x *run) proofCase(p []rnode, ks [][]byte, treeKeys [][]byte, style string) {
+	inTree := map[string]bool{}
+	for _, k := range treeKeys {
+		inTree[string(k)] = true
+	}
+	tab := newTab()
+	var proves []string
+	for _, k := range ks {
+		v := realProve(p, k)
+		refProveQueries(p, k, tab)
+		proves = append(proves, vh.Tuple(vh.Hex(k), vh.Bool(v)))
+		x.res.Count(style+"/"+string(k)+fmt.Sprint(len(p)), true)
+		if v && !inTree[string(k)] {
+			x.res.Fail("proof-forged-membership", "Prove accepts a key that is not in the tree ("+style+")", treeReplay{What: style, Keys: hexKeys(treeKeys), Key: hex.EncodeToString(k), Pf: p})
+		}
+	}
+	pv := realProofValid(p)
+	x.cases.Add(fmt.Sprintf("CProof %s %s %s %s []", tab.coq(), coqNodes(p), vh.Bool(pv), vh.List(proves)),
+		map[string]any{"kind": "proof", "style": style, "proof": p})
+	x.res.Dist("model:proof")
+}
+
+func main() {
+	o := vh.ParseFlags()
+	res := vh.NewResult("real fixedtree Writer->Tree->ExtractProofMaterial->Proof on trees of 1..2000 nodes (all sizes up to a bound, sampled above), key styles: hash strings, short, arbitrary bytes, common prefixes, concatenations of other keys and hashes; every key's proof (sampled for large trees); every single-node single-field mutation of tree and proof (exhaustive for small trees); non-trivial = tree with more than one node")
+	x := &run{o: o, r: vh.NewRand(o.Seed), res: res, cases: &vh.Cases{Import: "From MV Require Import C12.Model.", Type: "case", CheckFn: "check", Shard: 40}}
+	if o.Replay != "" {
+		var rp treeReplay
+		if err := vh.ReadReplay(o.Replay, &rp); err == nil && len(rp.Keys) > 0 {
+			keys := make([][]byte, len(rp.Keys))
+			for i := range keys {
+				keys[i], _ = hex.DecodeString(rp.Keys[i])
+			}
+			fmt.Printf("replaying %s on a tree of %d keys\n", rp.What, len(keys))
+			x.tree(keys, "replay", true, 1)
+		}
+	}
+	x.corpus()
+	x.arith()
+
+	// all sizes up to a bound, exhaustive proofs and mutations
+	exh := o.Pick(40, 130)
+	for n := 1; n <= exh; n++ {
+		style := n % 4
+		x.tree(genKeys(x.r, n, style), fmt.Sprintf("style%d", style), n <= 64, 5)
+	}
+	// adversarial keys: concatenations of other keys and hashes
+	for _, n := range []int{3, 7, 12, 31, 33, 64} {
+		base, _ := realGen(genKeys(x.r, n, n%2))
+		x.tree(adversarialKeys(x.r, base), "adversarial", true, 7)
+	}
+	// duplicated keys (model correspondence of first-occurrence rules; the oracle skips proof claims)
+	for _, n := range []int{2, 5, 9, 16} {
+		ks := genKeys(x.r, n, 1)
+		for i := 0; i < 1+n/4; i++ {
+			ks[x.r.Intn(n)] = ks[x.r.Intn(n)]
+		}
+		x.tree(ks, "duplicates", true, 3)
+	}
+	// sampled larger sizes up to 2000
+	big := []int{63, 64, 65, 127, 128, 129, 255, 256, 257, 511, 512, 513, 1000, 1023, 1024, 1025, 1999, 2000}
+	nb := o.Pick(7, 60)
+	for k := 0; k < nb; k++ {
+		var n int
+		switch {
+		case k == 0:
+			n = 2000
+		case k%2 == 1:
+			n = big[x.r.Intn(len(big))]
+		default:
+			n = x.r.Range(41, 2000)
+		}
+		if !o.Thorough() && k > 2 && n > 600 {
+			n = n/4 + 41
+		}
+		x.tree(genKeys(x.r, n, []int{0, 0, 1, 2}[x.r.Intn(4)]), "sampled", false, 4)
+	}
+	if o.Thorough() {
+		for k := 0; k < 30; k++ {
+			n := x.r.Range(2, 200)
+			base, _ := realGen(genKeys(x.r, n, k%2))
+			x.tree(adversarialKeys(x.r, base), "adversarial", n <= 64, 9)
+		}
+	}
+	ks := vh.SortedKeys(res.Distribution)
+	sort.Strings(ks)
+	res.Exhaustive = false
+	res.ModelCases = x.cases.Len()
+	res.Sample(map[string]any{"note": "see cases.jsonl of a --keep run for every case"})
+	if err := x.cases.Write(o.Out); err != nil {
+		panic(err)
+	}
+	res.Write(o.Out)
 }
